@@ -156,8 +156,8 @@ CONTRACTS["model:Model.update_links#conversion"] = dict(
         ("C03.number_from_source", "implies(par.units == 'number' and isinstance(par.links[0].source, SourceCompartment), par.links[0]._cache == max(0, old(par.vals[ti])) * self.dt / par.timescale)"),
         ("C03.number_shared", "implies(par.units == 'number' and not isinstance(par.links[0].source, SourceCompartment) and old(par.vals[ti]) > 0, "
                               "all(l._cache * old(%s) == (old(par.vals[ti]) * self.dt / par.timescale if old(%s) != 0 else 0) for l in par.links))" % (_popsize, _popsize)),
-        ("C02+C03.negative_moves_nobody", "implies(old(par.vals[ti]) <= 0, all(l._cache == 0 for l in par.links))"),
-        ("C02.fraction_nonneg", "implies(not (par.units == 'number' and isinstance(par.links[0].source, SourceCompartment)), all(l._cache >= 0 for l in par.links))"),
+        ("C01+C02+C03.negative_moves_nobody", "implies(old(par.vals[ti]) <= 0, all(l._cache == 0 for l in par.links))"),
+        ("C01+C02.fraction_nonneg", "implies(not (par.units == 'number' and isinstance(par.links[0].source, SourceCompartment)), all(l._cache >= 0 for l in par.links))"),
     ],
     frame_props=["C01", "C02", "C03"],
     defined_props=["C02"],
@@ -238,6 +238,8 @@ CONTRACTS["model:ResidualJunctionCompartment.balance#plain"] = dict(
         ("C04.stated_proportion_scaled_to_one", "all(implies(l.parameter is not None, l.vals[ti] * max(1, old(%s)) == old(%s) * old(l.parameter.vals[ti])) for l in self.outlinks)" % (_res_P, _inflow)),
         ("C04.residual_gets_remainder", "all(implies(l.parameter is None, l.vals[ti] == old(%s) * max(0, 1 - old(%s))) for l in self.outlinks)" % (_inflow, _res_P)),
         ("C02.flows_nonneg", "all(l.vals[ti] >= 0 for l in self.outlinks)"),
+        # C01 "a junction passes on exactly what it receives"; for C02 this is the junction's form of "the people leaving never exceed the people present"
+        ("C01+C02+C04.passes_on_exactly_what_it_receives", "sum(l.vals[ti] for l in self.outlinks) == old(%s)" % _inflow),
     ],
     frame_props=["C01", "C02", "C04"],
     defined_props=["C02"],
@@ -260,6 +262,7 @@ CONTRACTS["model:ResidualJunctionCompartment.balance#group"] = dict(
         ("C04+C05.stated_proportion_scaled_to_one_per_row", "all(implies(l.parameter is not None, l._vals[i, ti] * max(1, old(%s)) == old(%s) * old(l.parameter.vals[ti])) for l in self.outlinks for i in range(R))" % (_res_P, _inflow_row)),
         ("C01+C04.residual_gets_the_remainder_of_its_own_row", "all(implies(l.parameter is None, l._vals[i, ti] == old(%s) * max(0, 1 - old(%s))) for l in self.outlinks for i in range(R))" % (_inflow_row, _res_P)),
         ("C02.flows_nonneg", "all(l._vals[i, ti] >= 0 for l in self.outlinks for i in range(R))"),
+        ("C01+C02+C04+C05.passes_on_exactly_what_it_receives_per_row", "all(sum(l._vals[i, ti] for l in self.outlinks) == old(%s) for i in range(R))" % _inflow_row),
     ],
     frame_props=["C01", "C02", "C04"],
     defined_props=["C02"],
